@@ -26,6 +26,7 @@ func runC10(c *Ctx, r *Report) {
 	c11PeerKey(c, r, "C10.R12")     // the state a backend is judged on ends with the configurations that name it: every operation on the peer table spells the key the same way (a peer stored under one spelling and released under another outlives its configuration, health flag and all)
 	c10RobinPerInstance(c, r, "C10.R13")
 	c11R6(c, r, "C10.R14")          // "currently available" is judged on counters that only move by +1/-1 pairs: a reset to zero with forgetters still pending drives the failure count negative and hides later failures
+	c11NoPeerlessUpstream(c, r, "C10.R15")
 	c11Provision(c, r, "C10.R11")   // "available" is judged on the backend's shared state: provisioning an upstream whose address is already in the pool takes the pooled peer, it does not make a second one
 	c03Dial(c, r, "C10.R10", false) // an upstream leaves the rotation for its own failures only: a failed dial is remembered on the peer that was dialed (evaluation of dialPeers over all outcomes), not on its siblings, which other upstreams may share
 	c11Handle(c, r, "C10.R7")       // "below its connection limit" is measured on counters the proxy keeps exact: +1 per peer once connected, -1 when done, nothing left behind by a failed dial
@@ -40,10 +41,12 @@ type polSpec struct {
 	choose int64
 }
 
-func c10Policies(c *Ctx, r *Report) {
-	r.rule("C10.R1", "only available upstreams are returned; no method call on a nil slot (per policy, pools of 0..3, all availability/count vectors and random draws)", 6)
-	r.rule("C10.R2", "an upstream is returned whenever one is available (first, random, random_choose, least_conn, ip_hash for every ordering of the hashes incl. zero, round_robin over every starting counter value); nil is returned when none is (all policies)", 6)
-	r.rule("C10.R3", "first returns the earliest available upstream; least_conn returns one with the fewest connections among the available", 2)
+func c10Policies(c *Ctx, r *Report) { c10PoliciesAs(c, r, "C10.R1", "C10.R2", "C10.R3") }
+
+func c10PoliciesAs(c *Ctx, r *Report, r1, r2, r3 string) {
+	r.rule(r1, "only available upstreams are returned; no method call on a nil slot (per policy, pools of 0..3, all availability/count vectors and random draws)", 6)
+	r.rule(r2, "an upstream is returned whenever one is available (first, random, random_choose, least_conn, ip_hash for every ordering of the hashes incl. zero, round_robin over every starting counter value); nil is returned when none is (all policies)", 6)
+	r.rule(r3, "first returns the earliest available upstream; least_conn returns one with the fewest connections among the available", 2)
 	specs := []polSpec{
 		{typ: "FirstSelection", iff: true, first: true, maxN: 3},
 		{typ: "RandomSelection", iff: true, maxN: 3},
@@ -58,7 +61,7 @@ func c10Policies(c *Ctx, r *Report) {
 		fnName := "modules/l4proxy.(*" + sp.typ + ").Select"
 		fn := c.Fn(fnName)
 		if fn == nil {
-			r.bad("C10.R1", fnName, "exists", "-", "policy not found")
+			r.bad(r1, fnName, "exists", "-", "policy not found")
 			continue
 		}
 		var p1, p2, p3 []string
@@ -224,10 +227,10 @@ func c10Policies(c *Ctx, r *Report) {
 		if sp.choose > 0 && sp.choose != 2 {
 			sfx = fmt.Sprintf(" (choose=%d)", sp.choose)
 		}
-		r.check(len(p1) == 0, "C10.R1", fnName, "only available"+sfx, pos, fmt.Sprintf("%d paths", total), trim(p1))
-		r.check(len(p2) == 0, "C10.R2", fnName, "nil iff none"+sfx, pos, fmt.Sprintf("%d paths (must-return-when-available claimed: %v)", total, sp.iff), trim(p2))
+		r.check(len(p1) == 0, r1, fnName, "only available"+sfx, pos, fmt.Sprintf("%d paths", total), trim(p1))
+		r.check(len(p2) == 0, r2, fnName, "nil iff none"+sfx, pos, fmt.Sprintf("%d paths (must-return-when-available claimed: %v)", total, sp.iff), trim(p2))
 		if sp.first || sp.least {
-			r.check(len(p3) == 0, "C10.R3", fnName, "choice", pos, "the contractual choice is made", trim(p3))
+			r.check(len(p3) == 0, r3, fnName, "choice", pos, "the contractual choice is made", trim(p3))
 		}
 	}
 }
